@@ -140,13 +140,20 @@ def title_token(rng, t):
     return str_token(rng, t)
 
 
-def gen_items(rng, opts, ctxflags, depth=0, maxitems=6, p_unknown=0.0, titles=None):
-    """grammar-derived item list for the schema, as a flat list of source tokens (bytes)"""
-    toks = []
+def gen_items(rng, opts, ctxflags, depth=0, maxitems=6, p_unknown=0.0, titles=None, toks=None, bounds=None):
+    """grammar-derived item list for the schema, as a flat list of source tokens (bytes).
+    When `bounds` is given, it receives every index of `toks` at which an item starts or a body ends."""
+    top = toks is None
+    if toks is None:
+        toks = []
     if not opts:
+        if bounds is not None:
+            bounds.append(len(toks))
         return toks
     n = rng.randint(0, maxitems)
     for _ in range(n):
+        if bounds is not None:
+            bounds.append(len(toks))
         o = rng.choice(opts)
         name = o.name
         if ctxflags & NOCASE and rng.random() < 0.5:
@@ -159,9 +166,13 @@ def gen_items(rng, opts, ctxflags, depth=0, maxitems=6, p_unknown=0.0, titles=No
             toks.append(b"{")
             if o.flags & KEYSTRVAL:
                 for _k in range(rng.randint(0, 3)):
+                    if bounds is not None:
+                        bounds.append(len(toks))
                     toks += [rng.choice([b"k1", b"k2", b"key", b"K1"]), b"=", str_token(rng, rng.choice(STR_BYTES))]
             if depth < 3:
-                toks += gen_items(rng, o.subs, ctxflags, depth + 1, max(1, maxitems - 2), p_unknown, titles)
+                gen_items(rng, o.subs, ctxflags, depth + 1, max(1, maxitems - 2), p_unknown, titles, toks, bounds)
+            elif bounds is not None:
+                bounds.append(len(toks))
             toks.append(b"}")
         elif o.ty == "func":
             toks += [nm, b"("]
@@ -188,7 +199,44 @@ def gen_items(rng, opts, ctxflags, depth=0, maxitems=6, p_unknown=0.0, titles=No
                 toks.append(b"}")
         else:
             toks += [nm, b"=", value_token(rng, o.ty)]
+    if bounds is not None:
+        bounds.append(len(toks))
     return toks
+
+
+def gen_unknown(rng, depth=0, maxdepth=3):
+    """a syntactically well-formed item whose name is not declared anywhere"""
+    name = rng.choice([b"unk", b"unknown_opt", b"zz9", b"new-feature", b"Unk"])
+    kind = rng.choice(["assign", "list", "append", "appendlist", "call", "sec", "tsec", "sec", "tsec"])
+    v = lambda: rng.choice([b"1", b"x", b"\"q s\"", b"'}'", b"\"{\"", b"true", b"1.5", b"a/b"])
+    if kind == "assign":
+        return [name, b"=", v()]
+    if kind == "append":
+        return [name, b"+=", v()]
+    if kind in ("list", "appendlist"):
+        t = [name, b"=" if kind == "list" else b"+=", b"{"]
+        for i in range(rng.choice([0, 1, 2, 3])):
+            if i:
+                t.append(b",")
+            t.append(v())
+        return t + [b"}"]
+    if kind == "call":
+        t = [name, b"("]
+        for i in range(rng.choice([0, 1, 2])):
+            if i:
+                t.append(b",")
+            t.append(v())
+        return t + [b")"]
+    t = [name] + ([v()] if kind == "tsec" else []) + [b"{"]
+    if depth < maxdepth:
+        for _ in range(rng.choice([0, 1, 2, 3])):
+            t += gen_unknown(rng, depth + 1, maxdepth)
+    return t + [b"}"]
+
+
+def deep_unknown(depth, leaf):
+    """`depth` nested unknown sections around `leaf` tokens"""
+    return [b"zzu", b"{"] * depth + leaf + [b"}"] * depth
 
 
 def render(rng, toks, comments=False):
